@@ -54,6 +54,8 @@ TOff == /\ off /\ l <= Len(Trace) /\ Ev.ev # "reset" /\ Adv
         /\ UNCHANGED <<vars, idOf, rboxes, off>>
 
 TSkip == /\ ~off /\ l <= Len(Trace) /\ Ev.ev \in Skipped /\ Adv
+         \* whatever a handed-out connection delivers is its peer's stream
+         /\ Ev.ev = "read" => Ev.ok = 1
          /\ IF Ev.ev = "relay" /\ Ev.op = "newbox" /\ Ev.err = "" THEN rboxes' = rboxes \cup {Ev.sid}
             ELSE IF Ev.ev = "relay" /\ Ev.op = "delbox" /\ Ev.err = "" THEN rboxes' = rboxes \ {Ev.sid}
             ELSE UNCHANGED rboxes
@@ -74,7 +76,7 @@ TRetOk ==
     /\ ~off /\ (Is("acceptRet") \/ Is("dialRet")) /\ Ev.err = "" /\ Adv
     /\ Ev.prevOpen = 0
     /\ IF Ev.ev = "acceptRet"
-       THEN \E cc \in 1..nConns : SAcceptRet(cc)
+       THEN \E cc \in 0..nConns : SAcceptRet(cc)
        ELSE CDialRet(Ev.who)
     /\ conns'[nConns'].sid = Rdv(Ev.sid)        \* the rendezvous the code really used
     /\ idOf' = idOf @@ (Ev.conn :> nConns')
@@ -100,7 +102,10 @@ THsOk ==
     /\ LET i == idOf[Ev.conn] IN
        /\ conns[i].pat = (IF Ev.pattern = "KK" THEN "KK" ELSE "XX")
        /\ v2 = (Ev.version >= 2)
-       /\ IF Ev.side = Srv THEN HsServerDone(i) ELSE HsClientDone(i)
+       /\ IF Ev.side = Srv
+          THEN HsServerDone(i) \/ HsBothDone(i)
+          ELSE IF conns[i].noise = "up" THEN UNCHANGED vars    \* reported by HsBothDone
+          ELSE HsClientDone(i)
        /\ (remote'[Ev.side] # None) = (Ev.paired = 1)
     /\ UNCHANGED <<idOf, rboxes, off>>
 
